@@ -498,14 +498,17 @@ class QasmProcessor:
             # create function call for the constituent gate
             name, com_args, com_regs = call
 
+            # substitute whole identifiers only
             for arg, real_arg in args_map.items():
+                pattern = r"\b{}\b".format(re.escape(arg.strip()))
                 com_args = [
-                    command.replace(arg.strip(), str(real_arg))
+                    re.sub(pattern, str(real_arg), command)
                     for command in com_args
                 ]
             for reg, real_reg in regs_map.items():
+                pattern = r"\b{}\b".format(re.escape(reg.strip()))
                 com_regs = [
-                    command.replace(reg.strip(), str(real_reg))
+                    re.sub(pattern, str(real_reg), command)
                     for command in com_regs
                 ]
             com_args = [_eval_expr(arg) for arg in com_args]
